@@ -412,8 +412,8 @@ def impl(c):
                 return {"err": "err:ChunkChangedAfterLaterReads"}
             return {"chunks": chunks}
         except Exception as e:
-            if "cap" in c and "No complete entry found" in str(e):
-                return {"err": "cap"}
+            if "cap" in c:
+                return {"err": "cap"}       # with max_chunk_size the read may refuse (whatever the wording of the error); the model decides WHEN
             return {"err": _errname(e)}
     if op == "entries":
         bt, suffix = _buffer_type(c["fmt"])
